@@ -487,6 +487,8 @@ std::string describe_threads()
 
 void fatal(const std::string& verdict, const std::string& sig, const std::string& detail)
 {
+    // the run is over: what follows is the harness's own bookkeeping, on whichever thread noticed the end
+    IgnoreScope ig;
     g_rec.stats["steps"] = static_cast<i64>(g.steps);
     g_rec.stats["sim_ns"] = g.now;
     g_rec.stats["multi_choice"] = static_cast<i64>(g.multi);
